@@ -79,13 +79,20 @@ def MATCH(
                 "Values must be sorted in descending order"
             )
 
+    if match_type == 1:
+        # The last position whose value does not exceed the lookup value.
+        position = 0
+        for val in lookup_array:
+            if val > lookup_value:
+                break
+            position += 1
+        return position or xlerrors.NaExcelError(
+            "No lesser value found."
+        )
+
     for i, val in enumerate(lookup_array):
         if val == lookup_value:
             return i + 1
-        if match_type == 1 and val > lookup_value:
-            return i or xlerrors.NaExcelError(
-                "No lesser value found."
-            )
         if match_type == -1 and val < lookup_value:
             return i or xlerrors.NaExcelError(
                 "No greater value found."
